@@ -31,7 +31,7 @@
                the SAVING re-queue changes no counter
      hand x  = log of the fibers handed out by next(), oldest first. *)
 From Coq Require Import List ZArith Arith.
-From LF Require Import Conc Sched SchedProofs.
+From LF Require Import Conc Sched SchedProofs SchedNProofs.
 Import ListNotations.
 
 (* Conservation (used by C02): every existing fiber is in at most one place;
@@ -153,6 +153,135 @@ Theorem c10_load_balance_1thread : forall dqs lc ms rc,
 Proof. intros. split; [exact lb_iend_1|exact (lb_scan_1thread dqs lc ms rc)]. Qed.
 Print Assumptions c10_load_balance_1thread.
 
+(* ================= N >= 1 kernel threads, every interleaving =================
+   (coq/SchedNProofs.v).  A deque operation is one atomic step of the model (the
+   deque internals are C02_deque's job); fiber states are plain shared variables.
+   Hypothesis on the programs (`progs_ok N own progs`): thread t only spawns
+   fiber ids <= N that it owns (own f = t), as fiber_create hands out fresh
+   fibers.  Thread t owns the deques 2t+1, 2t+2:
+     FqN s t = dq s (sfrom s t), SqN s t = dq s (4t+3 - sfrom s t);
+     placesN s = what every thread holds (current fiber and the locals of its pc,
+                 including a stolen fiber at PL2) ++ all deques 1..2n. *)
+
+(* Conservation for N threads: every fiber that is RUNNING, READY, SAVING, or
+   WAITING-but-not-parked is in exactly one place (one deque of one thread, or
+   held by one thread), never in two; queued fibers are READY / SAVING / flipped;
+   parked fibers are in no place; a fiber handed out by any thread's next() is
+   not SAVING; steals and load_balance moves preserve all this. *)
+Theorem sched_conservation : forall N own progs s,
+  progs_ok N own progs -> reachable M (fst (init true progs)) s ->
+  NoDup (placesN s) /\
+  (forall f d, 1 <= d <= 2 * nthr s -> In f (dq s d) ->
+     fstt s f = 2%Z \/ fstt s f = 5%Z \/ (fstt s f = 3%Z /\ inwq s f = false)) /\
+  (forall f, fstt s f = 1%Z \/ fstt s f = 2%Z \/ fstt s f = 5%Z \/ (fstt s f = 3%Z /\ inwq s f = false) ->
+     In f (placesN s)) /\
+  (forall f, inwq s f = true -> fstt s f = 3%Z /\ ~ In f (placesN s)) /\
+  (forall t nf, t < nthr s -> handedN s t nf -> fstt s nf = 2%Z \/ fstt s nf = 3%Z) /\
+  (forall f, In f (placesN s) -> fstt s f <> 0%Z /\ 1 <= f <= N) /\
+  (forall f, fstt s f = 0 \/ fstt s f = 1 \/ fstt s f = 2 \/ fstt s f = 3 \/ fstt s f = 5)%Z /\
+  length (placesN s) <= N /\
+  (forall t, t < nthr s -> (sfrom s t = 2 * t + 1 \/ sfrom s t = 2 * t + 2) /\
+     ((forall k tmp, pc (thr s t) <> PN5 k tmp) -> sto s t = 4 * t + 3 - sfrom s t)).
+Proof. intros N own progs s Hp R. exact (conservation_of_invN N own s (reachable_invN N own progs s Hp R)). Qed.
+Print Assumptions sched_conservation.
+
+(* Only thread t adds to t's deques (fiber_scheduler_schedule and the SAVING
+   re-queue push on the caller's store_to; load_balance pushes the stolen fiber
+   on the THIEF's schedule_from): a step of another thread u leaves each deque
+   of t unchanged or removes its last element. *)
+Theorem sched_only_owner_adds : forall N own progs s u t d,
+  progs_ok N own progs -> reachable M (fst (init true progs)) s ->
+  u < nthr s -> t < nthr s -> t <> u -> (d = 2 * t + 1 \/ d = 2 * t + 2) ->
+  dq (fst (step s u)) d = dq s d \/ exists x, dq s d = dq (fst (step s u)) d ++ [x].
+Proof.
+  intros N own progs s u t d Hp R Hu Ht Hne Hd.
+  exact (others_only_steal N own s u t d (reachable_invN N own progs s Hp R) Hu Ht Hne Hd).
+Qed.
+Print Assumptions sched_only_owner_adds.
+
+(* Per-thread bypass bound under work stealing.  Ghosts of the instrumented machine
+   `nst` (nstep_erase / nreach_base / reachable_nreach / nrun_erase): for a fiber g
+   queued on thread t's deques,
+     nbyp g = number of times t's next() handed out ANOTHER fiber while g was
+              queued on t and not SAVING,
+     nstl g = number of stolen fibers that t's load_balance pushed in front of its
+              schedule_from deque meanwhile (each is popped before g),
+     nmx g  = the largest number of fibers on t (held by t or in its two deques)
+              at any time meanwhile (n_t of DESIGN.md; at most N),
+   all reset when g is handed out and when g is stolen (the interval ends).
+   Theorem: nbyp g <= 2 (nmx g - 1) + nstl g, with the bounds by position.  Steps
+   of the other threads never increase the left side and only shrink t's deques
+   (sched_only_owner_adds).  The allowance nstl is necessary: see the _refuted
+   theorem below.  In the runtime load_balance is only called when the thread's
+   own next() has just returned NULL (fiber_manager_yield, thread_func), i.e. when
+   no runnable fiber is queued on t, so there nstl g = 0 for fibers queued later. *)
+Theorem yield_bounded_bypass_nthreads : forall N own progs x,
+  progs_ok N own progs -> nreach true progs x ->
+  (forall g, nbyp x g <= 2 * (nmx x g - 1) + nstl x g /\ nmx x g <= N) /\
+  (forall t g, t < nthr (nbase x) -> In g (SqN (nbase x) t) ->
+     nbyp x g + length (FqN (nbase x) t) + 1 <= nmx x g + nstl x g) /\
+  (forall t p g, t < nthr (nbase x) -> nth_error (FqN (nbase x) t) p = Some g ->
+     nbyp x g + p + 2 <= 2 * nmx x g + nstl x g) /\
+  (forall t g, t < nthr (nbase x) -> In g (FqN (nbase x) t) \/ In g (SqN (nbase x) t) ->
+     cntT (nbase x) t <= nmx x g) /\
+  (forall g, fstt (nbase x) g = 5%Z \/
+             (Qcn (dq (nbase x)) (nthr (nbase x)) g = 0 /\ ~ poppedN (nbase x) g) -> nbyp x g = 0).
+Proof. intros N own progs x Hp R. exact (bypass_bound_N N own progs x Hp R). Qed.
+Print Assumptions yield_bounded_bypass_nthreads.
+
+(* A steal ends the interval: the step that steals f resets its counters and
+   leaves the thief at PL2 .. f; there f is in no deque, and the thief's next step
+   puts f at the head (bottom) of the thief's schedule_from deque, i.e. f is the
+   thief's next hand-out unless the same load_balance call pushes further stolen
+   fibers in front of it (at most 49). *)
+Theorem stolen_fiber_runs_on_thief : forall N own progs x u,
+  progs_ok N own progs -> nreach true progs x -> u < nthr (nbase x) ->
+  (forall f, stolen (nbase x) (fst (step (nbase x) u)) u = Some f ->
+     nbyp (nstep x u) f = 0 /\ nstl (nstep x u) f = 0 /\ nmx (nstep x u) f = 0 /\
+     exists k i a b c, pc (thr (nbase (nstep x u)) u) = PL2 k i a b c f) /\
+  (forall k i lc rc ms f, pc (thr (nbase x) u) = PL2 k i lc rc ms f ->
+     Qcn (dq (nbase x)) (nthr (nbase x)) f = 0 /\ nbyp x f = 0 /\
+     dq (fst (step (nbase x) u)) (sfrom (nbase x) u) = f :: dq (nbase x) (sfrom (nbase x) u) /\
+     sfrom (fst (step (nbase x) u)) u = sfrom (nbase x) u).
+Proof.
+  intros N own progs x u Hp R Hu. split.
+  - intros f Hf. exact (steal_resets x u f Hf).
+  - intros k i lc rc ms f Hpc. exact (stolen_on_thief N own progs x u k i lc rc ms f Hp R Hu Hpc).
+Qed.
+Print Assumptions stolen_fiber_runs_on_thief.
+
+(* Without the allowance the bound is FALSE on the model, and the same trace is
+   produced by the real code under the harness (case in corpus/C10.txt): two
+   threads, three fibers; fiber 1 READY on thread 0's store_to deque is bypassed
+   6 > 2(3-1) times by thread 0's next(), with never more than 3 fibers on
+   thread 0, because the fiber running on thread 0 calls load_balance (harness op
+   `balance`) before each of its blocking yields and steals the other one back. *)
+Theorem yield_bounded_bypass_nthreads_no_allowance_refuted :
+  exists N own progs sch g,
+    let x := nrun (ninit true progs) sch in
+    progs_ok N own progs /\ nreach true progs x /\
+    fstt (nbase x) g = 2%Z /\ In g (SqN (nbase x) 0) /\
+    nmx x g = 3 /\ nbyp x g = 6 /\ 2 * (nmx x g - 1) < nbyp x g /\ nstl x g = 6.
+Proof.
+  exists 3, wit_own, [wit_p0; wit_p1], wit_sch, 1. cbv zeta.
+  split; [exact wit_progs_ok|]. split; [apply nreach_nrun; constructor|].
+  destruct bypass_unconditional_witness as (_ & _ & A & B & _ & C & D & E & F).
+  rewrite B. repeat split; auto. left; reflexivity.
+Qed.
+Print Assumptions yield_bounded_bypass_nthreads_no_allowance_refuted.
+
+(* the N-thread ghosts do not influence the machine *)
+Theorem c10_nthread_instrumentation_erases : forall fixed progs,
+  (forall x t, nbase (nstep x t) = fst (step (nbase x) t)) /\
+  (forall x, nreach fixed progs x -> reachable M (fst (init fixed progs)) (nbase x)) /\
+  (forall s, reachable M (fst (init fixed progs)) s -> exists x, nreach fixed progs x /\ nbase x = s) /\
+  (forall x sch, nbase (nrun x sch) = fst (run_sched M (nbase x) sch)).
+Proof.
+  intros fixed progs. split; [exact nstep_erase|]. split; [exact (nreach_base fixed progs)|].
+  split; [exact (reachable_nreach fixed progs)|]. intros x sch; exact (nrun_erase sch x).
+Qed.
+Print Assumptions c10_nthread_instrumentation_erases.
+
 (* ---- non-vacuity: the hypotheses are met by concrete reachable states ---- *)
 Definition ex_prog := [OSpawn 1; OSpawn 2; OSpawn 3; OIdle; OYield; OYield; OYield; OYield; OYield; OYield].
 
@@ -216,4 +345,18 @@ Example ex_saving_requeue_reachable :
   hand (irun y (repeat 0 9)) = hand y ++ [3].
 Proof.
   split; [apply ireach_irun; constructor|]. vm_compute. repeat split; reflexivity.
+Qed.
+
+(* two threads: thread 0 steals fiber 3 from thread 1's deque 4, holds it at PL2,
+   then pushes it in front of its own schedule_from deque *)
+Example ex_steal_happens :
+  let x := nrun (ninit true [wit_p0; wit_p1]) (firstn 19 wit_sch) in
+  let y := nrun x [0] in
+  nreach true [wit_p0; wit_p1] y /\ progs_ok 3 wit_own [wit_p0; wit_p1] /\
+  dq (nbase x) 4 = [3] /\ stolen (nbase x) (nbase y) 0 = Some 3 /\ dq (nbase y) 4 = [] /\
+  (exists k i a b c, pc (thr (nbase y) 0) = PL2 k i a b c 3) /\
+  FqN (nbase (nrun y [0])) 0 = [3] /\ placesN (nbase y) = [3; 2; 1].
+Proof.
+  cbv zeta. split; [repeat apply nreach_nrun; constructor|]. split; [exact wit_progs_ok|].
+  exact steal_example.
 Qed.
